@@ -9,10 +9,77 @@ package main
 import (
 	"fmt"
 	"go/ast"
+	"go/parser"
+	"go/printer"
+	"go/token"
+	"os"
+	"path/filepath"
 	"strings"
 
 	"ssvharness/internal/gen"
 )
+
+// synPkg is a syntax-only view of a package directory (this extractor matches statement text and
+// needs no type information; skipping the type-check of the dependency closure keeps Gen at well under a second).
+type synPkg struct {
+	Dir   string
+	fset  *token.FileSet
+	files []*ast.File
+}
+
+func loadSyntax(repo, dir string) (*synPkg, error) {
+	p := &synPkg{Dir: dir, fset: token.NewFileSet()}
+	ents, err := os.ReadDir(filepath.Join(repo, dir))
+	if err != nil {
+		return nil, err
+	}
+	for _, e := range ents {
+		n := e.Name()
+		if !strings.HasSuffix(n, ".go") || strings.HasSuffix(n, "_test.go") {
+			continue
+		}
+		f, err := parser.ParseFile(p.fset, filepath.Join(repo, dir, n), nil, parser.SkipObjectResolution)
+		if err != nil {
+			return nil, err
+		}
+		p.files = append(p.files, f)
+	}
+	return p, nil
+}
+
+// Src prints a node on one line (canonical gofmt form, whitespace collapsed).
+func (p *synPkg) Src(n ast.Node) string {
+	var sb strings.Builder
+	printer.Fprint(&sb, p.fset, n)
+	return strings.Join(strings.Fields(sb.String()), " ")
+}
+
+// Func finds a function or method declaration; it must be unique in the package.
+func (p *synPkg) Func(recv, name string) (*ast.FuncDecl, error) {
+	var found *ast.FuncDecl
+	for _, f := range p.files {
+		for _, d := range f.Decls {
+			fd, ok := d.(*ast.FuncDecl)
+			if !ok || fd.Name.Name != name {
+				continue
+			}
+			match := recv == "" && fd.Recv == nil
+			if recv != "" && fd.Recv != nil && len(fd.Recv.List) == 1 {
+				match = strings.TrimPrefix(p.Src(fd.Recv.List[0].Type), "*") == strings.TrimPrefix(recv, "*")
+			}
+			if match {
+				if found != nil {
+					return nil, fmt.Errorf("%s: function %s.%s declared more than once (build-tagged variants?)", p.Dir, recv, name)
+				}
+				found = fd
+			}
+		}
+	}
+	if found == nil {
+		return nil, fmt.Errorf("%s: function %s.%s not found", p.Dir, recv, name)
+	}
+	return found, nil
+}
 
 const stepVocabulary = `/-- step vocabulary of the cred.ManagedServer operations (one constructor per recognised Go statement shape) -/
 inductive Step where
@@ -93,7 +160,7 @@ const loadLoop = "for username, uPSK := range uPSKMap { " +
 	"userLookupMap[uPSKHash] = c " +
 	"credMap[username] = &cachedUserCredential{uPSK, uPSKHash} }"
 
-func extract(p *gen.Pkg, name string) ([]string, error) {
+func extract(p *synPkg, name string) ([]string, error) {
 	fd, err := p.Func("*ManagedServer", name)
 	if err != nil {
 		return nil, err
@@ -206,7 +273,7 @@ func extract(p *gen.Pkg, name string) ([]string, error) {
 	return steps, nil
 }
 
-func bodyIs(p *gen.Pkg, recv, name, want string) error {
+func bodyIs(p *synPkg, recv, name, want string) error {
 	fd, err := p.Func(recv, name)
 	if err != nil {
 		return err
@@ -218,7 +285,7 @@ func bodyIs(p *gen.Pkg, recv, name, want string) error {
 }
 
 // containsSeq checks that the function's source contains the given normalised fragment.
-func containsSeq(p *gen.Pkg, recv, name, frag string) error {
+func containsSeq(p *synPkg, recv, name, frag string) error {
 	fd, err := p.Func(recv, name)
 	if err != nil {
 		return err
@@ -231,7 +298,7 @@ func containsSeq(p *gen.Pkg, recv, name, frag string) error {
 
 func main() {
 	gen.Main("C08", func(c *gen.Ctx, l *gen.Lean) error {
-		p, err := c.Load("cred")
+		p, err := loadSyntax(c.Repo, "cred")
 		if err != nil {
 			return err
 		}
@@ -253,7 +320,7 @@ func main() {
 		if err := containsSeq(p, "*Manager", "RegisterServer", "if err := s.LoadFromFile(); err != nil { return nil, fmt.Errorf(\"failed to load credentials for server %s: %w\", name, err) }"); err != nil {
 			return err
 		}
-		q, err := c.Load("ss2022")
+		q, err := loadSyntax(c.Repo, "ss2022")
 		if err != nil {
 			return err
 		}
